@@ -120,10 +120,18 @@ def run(tier, seed):
             except Broken as e:
                 V.broke("%s/%s: %s" % (cfg, t, e))
     # literal operator
+    # the long long / unsigned long long spellings of the 64-bit operand are distinct types on LP64: same programs as int64_t / uint64_t
+    from . import spell
+    for cfg_ in (configs[:1] if tier == "quick" else configs):
+        try:
+            spell.check(V, cfg_, "conv", "integral conversion")
+        except Broken as e:
+            V.broke("spellings %s: %s" % (cfg_, e))
     expl = ("For each of the 8 integral carriers and each of constructor / integral_to_fixed / make_fixed: on the box |n| <= 2^31-1 "
             "(n = mathematical operand value; for unsigned carriers the negative half of the bit pattern is n + 2^N) the returned form is "
             "65536*n unwrapped, on the complement the NaN constant. For fixed_to_integral / static_cast / fixed_to_arithmetic with finite x: "
             "on the box where k = floor(x/65536) is representable in T the result q satisfies -65535 <= 65536*q - x <= 0 (k <= x < k+1), "
             "otherwise 0. The composition n -> fixed_t -> T returns the form n on the in-range box. K17 and K20 are both analysed because "
             "the cmp_* helpers differ (hand written versus <utility>).")
+    expl = expl + ' The `long long` / `unsigned long long` spellings of a 64-bit integral operand (distinct types on LP64) are compared with the int64_t / uint64_t wrappers by summary equivalence; spellings the library does not compile for are listed in the evidence as not defined.'
     return V.finish("proof", expl, "./fx check C04 --tier %s" % tier, extra={"configs": configs, "wrappers": nw})
